@@ -31,7 +31,13 @@ type Case struct {
 	// Queue[int] holding the serial numbers themselves), "string", "i16",
 	// "u8", "wide", "ptr", "bytes", "any" (see package elem and specs below).
 	Elem string `json:"elem,omitempty"`
-	Ops  []Op   `json:"ops"`
+	// Ctor "edge": NewSize(N), filled exactly, with the head at offset g+Edge
+	// where g is the number of slots append adds to a full buffer of N elements
+	// of this element type (beyond 1024 elements the runtime grows by a factor
+	// below 2, so g is neither N nor a power of two): the state in which growth
+	// arithmetic that is off by one goes wrong.  The Ops follow.
+	Edge int  `json:"edge,omitempty"`
+	Ops  []Op `json:"ops"`
 }
 
 const maxRun = 20
@@ -103,16 +109,17 @@ var bytesTexts = [4]string{elem.EncodeStr(0, 0), elem.EncodeStr(1, 0), elem.Enco
 // qstats is what a run reports for classification.
 type qstats struct {
 	// Labels from the shadow of the documented ring-buffer algorithm; see qrun.
-	extremePeek int // Peek at an offset near math.MinInt / math.MaxInt
-	rotAdd      int // Add on a full buffer with head > 0 (rotate, then grow)
-	rotPush     int // Push on a full buffer with head > 0
-	growAdd0    int // Add on a full buffer with head == 0 (plain append)
-	growPush0   int // Push on a full buffer with head == 0
-	wrapAdd     int // Add stored below head (tail wrapped)
-	wrapPush    int // Push moved head from 0 to len-1
-	wrapPopL    int // PopLast took an element stored below head
-	headWrap    int // Pop moved head from len-1 to 0
-	wrapPeek    int // contents straddled the end of the buffer at a check
+	extremePeek int  // Peek at an offset near math.MinInt / math.MaxInt
+	edged       bool // constructor "edge"
+	rotAdd      int  // Add on a full buffer with head > 0 (rotate, then grow)
+	rotPush     int  // Push on a full buffer with head > 0
+	growAdd0    int  // Add on a full buffer with head == 0 (plain append)
+	growPush0   int  // Push on a full buffer with head == 0
+	wrapAdd     int  // Add stored below head (tail wrapped)
+	wrapPush    int  // Push moved head from 0 to len-1
+	wrapPopL    int  // PopLast took an element stored below head
+	headWrap    int  // Pop moved head from len-1 to 0
+	wrapPeek    int  // contents straddled the end of the buffer at a check
 	maxLen      int
 	emptied     int // became empty by Pop/PopLast
 	clears      int
@@ -125,6 +132,8 @@ type qrun[T any] struct {
 	c      Case
 	sp     *spec[T]
 	q      *queue.Queue[T]
+	light  bool // see check
+	lightN int
 	ref    []int // reference sequence, front first
 	refE   []T   // named kinds: the elements handed to the queue for ref, in step with it
 	els    []T   // named kinds: els[s-1] is the element made for serial number s (for messages)
@@ -327,6 +336,24 @@ func (r *qrun[T]) check() string {
 	if n > r.maxLen {
 		r.maxLen = n
 	}
+	if r.light {
+		// building a state of thousands of elements: Len and the two ends at
+		// every step, the full comparison every 128th
+		if r.lightN++; r.lightN%128 != 0 {
+			if got := q.Len(); got != n {
+				return r.errf("Len = %d, reference sequence has %d elements %s", got, n, r.brief(ref))
+			}
+			if n > 0 {
+				if f, ok := q.Peek(0); !ok || !r.is(f, 0) {
+					return r.errf("Peek(0) = (%s, %v), reference %s", r.show(f), ok, r.brief(ref))
+				}
+				if b, ok := q.Peek(-1); !ok || !r.is(b, n-1) {
+					return r.errf("Peek(-1) = (%s, %v), reference %s", r.show(b), ok, r.brief(ref))
+				}
+			}
+			return ""
+		}
+	}
 	if r.shN > 0 && r.shHead+r.shN > len(r.sh) {
 		r.wrapPeek++
 	}
@@ -415,6 +442,26 @@ func (r *qrun[T]) checkEachStop(j int) string {
 	for i := range got {
 		if !r.is(got[i], i) {
 			return r.errf("Each[%d] = %s, reference has %s", i, r.show(got[i]), r.want(r.ref[i]))
+		}
+	}
+	// a second Each (and a Slice) from inside the callback of the first, at
+	// element j: both iterations must list the whole queue
+	var outer, inner []T
+	r.q.Each(func(v T) bool {
+		if outer = append(outer, v); len(outer) == j {
+			r.q.Each(func(w T) bool { inner = append(inner, w); return true })
+			_ = r.q.Slice()
+		}
+		return true
+	})
+	for name, l := range map[string][]T{"outer": outer, "inner": inner} {
+		if len(l) != n {
+			return r.errf("Each with a second Each run inside its callback (at element %d): the %s iteration made %d callbacks, the queue holds %d", j, name, len(l), n)
+		}
+		for i := range l {
+			if !r.is(l[i], i) {
+				return r.errf("Each with a second Each run inside its callback (at element %d): %s[%d] = %s, reference has %s", j, name, i, r.show(l[i]), r.want(r.ref[i]))
+			}
 		}
 	}
 	return ""
@@ -572,7 +619,7 @@ func (r *qrun[T]) apply(op Op) string {
 
 // runQueueT interprets c with elements of type T and returns the run's labels
 // (for classification) and "" or a violation message.
-func runQueueT[T any](c Case, sp *spec[T]) (st *qstats, msg string) {
+func runQueueT[T any](c Case, sp *spec[T], o *vk.Obs) (st *qstats, msg string) {
 	r := &qrun[T]{c: c, sp: sp, step: -1}
 	st = &r.qstats
 	defer func() {
@@ -598,6 +645,31 @@ func runQueueT[T any](c Case, sp *spec[T]) (st *qstats, msg string) {
 		}
 		r.q = queue.NewSize[T](n)
 		r.sh = make([]T, n)
+	case "edge":
+		n := min(max(c.N, 2), 5000)
+		r.q = queue.NewSize[T](n)
+		r.sh = make([]T, n)
+		var zero T
+		g := cap(append(make([]T, n), zero)) - n
+		h := g + c.Edge
+		for h >= n {
+			h -= n / 2
+		}
+		h = max(h, 1)
+		r.light = true
+		for i := 0; i < n+2*h && msg == ""; i++ {
+			switch {
+			case i < n, i >= n+h:
+				msg = r.doAdd()
+			default:
+				msg = r.doPop()
+			}
+		}
+		r.light = false
+		if msg != "" {
+			return st, msg
+		}
+		r.edged = true
 	default:
 		return st, r.errf("VK-INFRA unknown constructor %q", c.Ctor)
 	}
@@ -605,6 +677,7 @@ func runQueueT[T any](c Case, sp *spec[T]) (st *qstats, msg string) {
 		return st, msg
 	}
 	for i, op := range c.Ops {
+		o.Step() // interleaved execution (vk.Interleave) switches to the other case here
 		r.step = i
 		if msg := r.apply(op); msg != "" {
 			return st, msg
@@ -637,28 +710,28 @@ var (
 )
 
 // runQueue instantiates the interpreter with the element kind of the case.
-func runQueue(c Case) (*qstats, string) {
+func runQueue(c Case, o *vk.Obs) (*qstats, string) {
 	switch c.Elem {
 	case "", elem.Int:
-		return runQueueT(c, &specInt)
+		return runQueueT(c, &specInt, o)
 	case elem.I16:
-		return runQueueT(c, &specI16)
+		return runQueueT(c, &specI16, o)
 	case KindU8:
-		return runQueueT(c, &specU8)
+		return runQueueT(c, &specU8, o)
 	case elem.Str:
-		return runQueueT(c, &specStr)
+		return runQueueT(c, &specStr, o)
 	case elem.Wide:
-		return runQueueT(c, &specWide)
+		return runQueueT(c, &specWide, o)
 	case elem.Ptr:
 		// The side table of IDs is shared by all goroutines, so it is reset but
 		// never read here: identity is checked against the elements themselves.
 		elem.ResetPtr()
-		return runQueueT(c, &specPtr)
+		return runQueueT(c, &specPtr, o)
 	case elem.Any:
 		elem.ResetPtr()
-		return runQueueT(c, &specAny)
+		return runQueueT(c, &specAny, o)
 	case elem.Bytes:
-		return runQueueT(c, &specBytes)
+		return runQueueT(c, &specBytes, o)
 	}
 	return &qstats{}, fmt.Sprintf("constructor (queue %s): VK-INFRA unknown element kind %q", c.Ctor, c.Elem)
 }
@@ -702,7 +775,7 @@ func FirstCaps(kind string, n int) []int {
 func (r *qstats) nonTrivial() bool { return r.rotAdd+r.rotPush > 0 }
 
 func runC07(c Case, o *vk.Obs) string {
-	r, msg := runQueue(c)
+	r, msg := runQueue(c, o)
 	if msg != "" {
 		return msg
 	}
@@ -714,6 +787,7 @@ func runC07(c Case, o *vk.Obs) string {
 	o.ClassIf(r.nonTrivial(), "rotate_path(shadow)_with_elem="+elemLabel(c.Elem))
 	o.ClassIf(r.equalStore > 0, "new_element_deeply_equal_to_an_earlier_one")
 	o.ClassIf(r.extremePeek > 0, "peek_at_int_range_end")
+	o.ClassIf(r.edged, "full_buffer_beyond_1024_with_head_at_the_growth_amount")
 	o.ClassIf(r.rotAdd > 0, "full_head>0_then_Add(shadow)")
 	o.ClassIf(r.rotPush > 0, "full_head>0_then_Push(shadow)")
 	o.ClassIf(r.rotAdd > 0 && r.rotPush > 0, "both_rotate_paths(shadow)")
